@@ -117,6 +117,10 @@ fn extremes(ctx: &Ctx) {
         }),
         Box::new(|| crate::c17_more::extremes(ctx)),
         Box::new(|| crate::c17_more::param_extremes(ctx)),
+        // out-of-order HLL estimates across the whole composite table (every knot, both ends)
+        Box::new(|| {
+            crate::c01::hll_composite_continuity(ctx);
+        }),
     ];
     jobs.par_iter().enumerate().for_each(|(i, j)| {
         let t = std::time::Instant::now();
